@@ -1,9 +1,8 @@
 """C08 reactor timed calls: run once, on time, in time order (ReactorBase timer heap)."""
-from typing import List, Optional
-
 from twisted.internet import error
 from twisted.internet.base import DelayedCall, ReactorBase
 
+from vlib import api
 from vlib.api import H, cover
 
 PROPERTY = "C08"
@@ -24,34 +23,45 @@ BOUNDS = {"quick": {"n": 3, "ni": 3, "tot": 3, "tot_in": 2, "m": 1, "nd": 1, "ks
 B = {}
 PADS = 51           # concrete cancelled far-future heap entries used to reach the compaction branch
 FAR = 1.0e9         # their time; all symbolic times and the clock stay below it in step_compact
-BOUNDS_TEXT = ("histories: start clock any real, 2..n callLater with any real delays >= 0, optional timeout() "
-               "(moves the calls into the heap), ONE modification (cancel i | reset i r>=0 | delay i r (any sign) "
-               "| callLater r>=0 | none) done from outside or from inside any one of the calls, then two clock "
-               "advances (any reals >= 0) each followed by runUntilCurrent; inductive steps: heap of <= k "
-               "DelayedCalls + <= m staged calls with any real time, delayed_time >= 0, any cancelled flags, "
-               "clock any real, one operation (callLater/cancel/reset/delay/timeout, or advance + "
-               "runUntilCurrent in which one designated call performs one of those operations); compaction: the "
-               "same runUntilCurrent step with 51 extra cancelled far-future heap entries")
-OUTSIDE = ["float rounding: times are exact reals (CrossHair real-based float model); the claim holds for "
-           "times on which float arithmetic is exact (dyadic times of moderate magnitude)",
-           "more than k heap entries / m staged entries in an inductive pre-state; more than one "
-           "modification per history or per runUntilCurrent",
+BOUNDS_TEXT = ("all clock values, delays and arguments are symbolic reals with |x| <= 1e6 (delays >= 0).  history: "
+               "from the empty reactor 2..n callLater, optional timeout() (moves the calls into the heap), ONE "
+               "modification (cancel i | reset i r>=0 | delay i r of any sign | callLater r | none) done from outside "
+               "(n calls) or from inside any one of the running calls (<= ni calls), then two symbolic clock advances "
+               "each followed by runUntilCurrent and timeout().  Inductive steps from an arbitrary invariant-"
+               "satisfying state of k heap entries + m <= B.m staged entries, any cancelled flags, at most nd entry "
+               "with a pending positive delayed_time, any clock: step_op (k+m <= tot): one of timeout / cancel i / "
+               "reset i r / delay i r / callLater r; step_run (k+m <= tot, or <= tot_in when a call acts): one "
+               "runUntilCurrent in which call `who` performs cancel/reset/delay/callLater/callLater-then-cancel on "
+               "entry tgt (itself included); step_sift: reset/delay on any entry of a heap of 4..ks active entries; "
+               "step_compact: step_run with 51 extra cancelled far-future heap entries and _cancellations off by "
+               "0 or 1, so that both outcomes of the compaction test occur")
+OUTSIDE = ["float rounding: times are exact reals (CrossHair real-based float model, finite values); the claim "
+           "holds for times on which float arithmetic is exact (dyadic times of moderate magnitude)",
+           "inductive pre-states with more entries than the bounds, or more than nd entries carrying a positive "
+           "delayed_time; more than one modification per history / per runUntilCurrent; quick tier: calls that "
+           "act from inside runUntilCurrent are checked on <= 2-entry inductive states (3-call histories cover "
+           "3 entries from the empty reactor)",
            "reset() with a negative argument; delay() with a negative argument applied to a call that was "
-           "scheduled during the running iteration",
+           "scheduled during the running iteration (it may then be due before calls that still run first)",
            "the compaction thresholds (50, half the heap) are literals in runUntilCurrent: compaction is "
-           "reached by padding the heap with 51 concrete cancelled entries whose time is beyond the clock",
-           "callFromThread queue, system events, real reactors' doIteration/sleep"]
+           "reached by padding the heap with 51 concrete cancelled entries whose time (1e9) is beyond the clock",
+           "exact value of _cancellations (only `<= number of cancelled entries` is an invariant; it drifts below "
+           "when compaction happens while a cancelled call is still staged); tie order among equal times",
+           "callFromThread queue (C13), system events, real reactors' doIteration/sleep"]
 ASSUMPTIONS = ["ReactorBase subclass overriding only seconds() (harness clock), installWaker() and wakeUp() "
-               "(no-ops); everything else is the real ReactorBase/DelayedCall",
+               "(no-ops); everything else is the real ReactorBase/DelayedCall; ReactorBase.__init__ runs "
+               "outside the symbolic tracer (it is input independent)",
                "representation invariant assumed by the inductive steps and re-established by every step: "
                "_pendingTimedCalls is a binary min-heap on .time; no entry of heap/staging list has called "
                "set; uncancelled entries have delayed_time >= 0; entries are distinct; _cancellations <= "
-               "number of cancelled entries in heap + staging list (it is equal until a compaction happens "
-               "while a cancelled call is staged: see report); shown reachable by the history harness",
+               "number of cancelled entries in heap + staging list; model and real calls agree on active() and "
+               "getTime(); shown reachable from the empty reactor by the history harness",
+               "pre-existing DelayedCalls of inductive states are built with the DelayedCall constructor exactly "
+               "as callLater builds them (cancelled ones as cancel() leaves them)",
                "pure-Python heapq under the solver (CrossHair substitutes it for _heapq); the C heapq in replay"]
 EXPLANATION = ("real ReactorBase timer heap run on symbolic real times: short histories from the empty reactor "
-               "and one-operation inductive steps from an arbitrary invariant-satisfying heap (incl. the "
-               "compaction branch), compared against a reference timer model")
+               "and one-operation inductive steps from an arbitrary invariant-satisfying heap (incl. deep "
+               "sift-up and the compaction branch), compared against a reference timer model")
 
 LONGEST = 2147483
 BIG = 1.0e6         # |symbolic reals| <= BIG: excludes nan/inf, keeps every delay below the timeout() cap
@@ -72,10 +82,12 @@ class _R(ReactorBase):
         return self.now
 
 
-try:
-    from crosshair.tracers import NoTracing as _NoTracing, is_tracing as _is_tracing
-except ImportError:     # replay interpreter without CrossHair
-    _NoTracing = None
+_NoTracing = None
+if api.MODE == "sym":   # the replay interpreter never imports CrossHair
+    try:
+        from crosshair.tracers import NoTracing as _NoTracing, is_tracing as _is_tracing
+    except ImportError:
+        _NoTracing = None
 
 
 def _mk_reactor(now):
@@ -484,15 +496,37 @@ def _hist_shards(tier):
     return out
 
 
+def _inner_shards(tier, acts):
+    if tier == "quick":
+        return [("act == %d" % a,) for a in acts]
+    return [("act == %d" % a, "who == %d" % w) for a in acts for w in range(BOUNDS[tier]["tot_in"])]
+
+
 HARNESSES = [
-    H(history, shards=_hist_shards, timeout={"quick": 90, "thorough": 1200}),
+    H(history, shards=_hist_shards, timeout={"quick": 90, "thorough": 1500}),
     H(step_op, shards=lambda tier: [("act == %d" % a,) for a in range(5)],
-      timeout={"quick": 90, "thorough": 1200}),
-    H(step_run, shards=lambda tier: [("act == %d" % a,) for a in range(6)],
-      timeout={"quick": 90, "thorough": 1200}),
-    H(step_sift, shards=lambda tier: [("act == 2",), ("act == 3",)], timeout={"quick": 90, "thorough": 1200}),
+      timeout={"quick": 90, "thorough": 1500}),
+    H(step_run, shards=lambda tier: [("act == 0",)] + _inner_shards(tier, (1, 2, 3, 4, 5)),
+      timeout={"quick": 90, "thorough": 1500}),
+    H(step_sift, shards=lambda tier: [("act == 2",), ("act == 3",)], timeout={"quick": 90, "thorough": 1500}),
     H(step_compact, shards=lambda tier: [("act == 0", "k + m == %d" % BOUNDS[tier]["tot"]),
-                                         ("act == 0", "k + m < %d" % BOUNDS[tier]["tot"]),
-                                         ("act == 1",), ("act == 5",)],
-      timeout={"quick": 90, "thorough": 1200}, labels=("end", "compacted")),
+                                         ("act == 0", "k + m < %d" % BOUNDS[tier]["tot"])]
+      + _inner_shards(tier, (1, 5)),
+      timeout={"quick": 90, "thorough": 1500}, labels=("end", "compacted")),
 ]
+
+VECTORS = {
+    "history": [(0.0, 3, 1.0, 2.0, 0.5, 0.0, True, 2, 1, -1, 0.25, 1.0, 5.0),
+                (10.0, 3, 1.0, 2.0, 0.5, 0.0, False, 1, 1, 0, 0.0, 1.0, 5.0),
+                (0.0, 3, 1.0, 2.0, 0.5, 0.0, False, 3, 1, -1, -1.75, 1.0, 5.0),
+                (0.0, 3, 1.0, 2.0, 0.5, 0.0, False, 4, 0, 2, 0.0, 1.0, 0.0),
+                (0.0, 2, 0.0, 0.0, 0.0, 0.0, False, 2, 1, 0, 0.0, 0.0, 0.0)],
+    "step_op": [(5.0, 2, 1, 0b010, 0, 1.0, 2.0, 0.0, 0.0, 0.0, 4.0, 0.0, 1, 1.0, -1, 0.0, 2, 1, 0.0),
+                (5.0, 3, 0, 0b001, 1, 1.0, 2.0, 3.0, 0.0, 0.0, 0.0, 0.0, -1, 0.0, -1, 0.0, 0, 0, 0.0)],
+    "step_run": [(5.0, 3, 0, 0b010, 0, 1.0, 2.0, 3.0, 0.0, 0.0, 0.0, 0.0, 0, 1.0, -1, 0.0, 0, 0, 0, 0.0),
+                 (5.0, 1, 1, 0b00, 0, 1.0, 0.0, 0.0, 0.0, 0.0, 4.0, 0.0, 0, 1.0, -1, 0.0, 0, 5, 1, 0.0)],
+    "step_sift": [(0.0, 5, 1.0, 2.0, 3.0, 4.0, 5.0, 0.0, 0.0, 2, 4, 0.5),
+                  (0.0, 7, 1.0, 2.0, 3.0, 4.0, 5.0, 6.0, 7.0, 3, 6, -6.5)],
+    "step_compact": [(5.0, 1, 1, 0b00, 0, 1.0, 0.0, 0.0, 0.0, 0.0, 4.0, 0.0, 0, 1.0, -1, 0.0, 0, 5, 1, 0.0),
+                     (5.0, 3, 0, 0b001, 1, 7.0, 9.0, 8.0, 0.0, 0.0, 0.0, 0.0, -1, 0.0, -1, 0.0, 0, 0, 0, 0.0)],
+}
